@@ -23,4 +23,8 @@ extern const char * vm_snprintf_fmt;
 extern char * vm_snprintf_dst;
 extern int vm_snprintf_calls;
 
+/* digit value of c in base, -1 if none (CBMC build only; shared with harness contract stubs so that both sides of a
+ * round trip build literally the same Horner expression) */
+int vm_digit(int c, int base);
+
 #endif
